@@ -59,6 +59,12 @@ MixProg(i) ==
         e == [RM(1, <<"h1">>, "error", IF i \in {1, 3} THEN other ELSE first, "none") EXCEPT !.name = "on_err"]
     IN [id |-> "PM" \o ToString(i), family |-> "data", methods |-> IF i \in {1, 3} THEN <<s, e>> ELSE <<e, s>>]
 
+(* payload parameters whose names are those of fields and locals the generated builders and dispatcher deal with *)
+NamedPayloadProg(i) ==
+    LET on == IF i = 1 THEN "success" ELSE IF i = 2 THEN "error" ELSE "always" IN
+    [id |-> "PN" \o ToString(i), family |-> "data",
+     methods |-> << [RM(1, <<"h1">>, on, "tn", "none") EXCEPT !.name = "on_ok"] >>]
+
 LegacyProg(i) == [id |-> "L" \o ToString(i), family |-> "legacy",
                   methods |-> << [RM(i, <<>>, "always", "raw", "none") EXCEPT !.name = "reply"] >>]
 
@@ -70,6 +76,7 @@ CompiledProgs ==
       \cup {DataProg(i) : i \in 1..Len(DataModes)}
       \cup {DataProgMerged(i, b) : i \in {1, 3, 5}, b \in BOOLEAN}
       \cup {MixProg(i) : i \in 1..4}
+      \cup {NamedPayloadProg(i) : i \in 1..3}
       \cup {LegacyProg(i) : i \in 1..2}))
 
 (* ------------------------------------------------------------ the machine *)
